@@ -123,8 +123,10 @@ func genPopulation(r *Rng, c *sessCase, v5mask int, wills bool, timed bool) {
 			canSetExpiry[id] = op.V5 && op.Expiry > 0
 		case connected[id] && x < 35:
 			c.Ops = append(c.Ops, sessOp{Op: "sub", ID: id, T: r.Intn(2)})
-		case x < 55:
+		case x < 47:
 			c.Ops = append(c.Ops, sessOp{Op: "pub", T: r.Intn(2)})
+		case x < 55:
+			c.Ops = append(c.Ops, sessOp{Op: []string{"retain", "retain", "unretain"}[r.Intn(3)], T: r.Intn(2), V5: r.Chance(50)})
 		case connected[id] && x < 70:
 			op := sessOp{Op: "disc", ID: id, Expiry: -1, WithWill: r.Chance(30)}
 			if r.Chance(25) && canSetExpiry[id] {
@@ -159,14 +161,25 @@ func init() {
 		genPopulation(r, c, v5mask, i%3 == 2, i%5 == 4)
 		c.Ops = append(c.Ops, sessOp{Op: "stop"}, sessOp{Op: "restart"})
 		// after the restart: publishes reach restored subscriptions, reconnects find their state
+		cycles := 1
 		for k := 0; k < 2+r.Intn(4); k++ {
-			switch r.Intn(3) {
+			if cycles < 2 && r.Chance(15) {
+				// a second shutdown / restart: what was removed after the first one must not come back
+				c.Ops = append(c.Ops, sessOp{Op: "stop"}, sessOp{Op: "restart"})
+				cycles++
+			}
+			switch r.Intn(4) {
+			case 3:
+				c.Ops = append(c.Ops, sessOp{Op: []string{"retain", "unretain", "unretain"}[r.Intn(3)], T: r.Intn(2), V5: r.Chance(50)})
 			case 0:
 				c.Ops = append(c.Ops, sessOp{Op: "pub", T: r.Intn(2)})
 			case 1:
 				op := genConnect(r, r.Intn(2), false, v5mask)
 				op.Clean = r.Chance(15)
 				c.Ops = append(c.Ops, op)
+				if r.Chance(60) {
+					c.Ops = append(c.Ops, sessOp{Op: "sub", ID: op.ID, T: r.Intn(2)})
+				}
 			default:
 				if i%5 == 4 {
 					c.Ops = append(c.Ops, sessOp{Op: "wait", Ms: 1500})
@@ -175,6 +188,97 @@ func init() {
 				}
 			}
 		}
+		return c
+	}}
+}
+
+func init() {
+	// C10: one live connection per client id; takeover / refusal; CONNECT always answered
+	props["C10"] = &sessProp{id: "C10", gen: func(r *Rng, i int, tier string) *sessCase {
+		c := &sessCase{Preempt: r.Chance(65)}
+		v5mask := r.Intn(4)
+		timed := i%4 == 3
+		n := 4 + r.Intn(8)
+		connected := map[int]bool{}
+		canSetExpiry := map[int]bool{}
+		ended := map[int]bool{}
+		races := 0
+		if timed {
+			// a CONNECT aimed at the moment a will-delay / session-expiry timer of its identifier fires
+			v5mask |= 1
+			op := genConnect(r, 0, true, v5mask)
+			op.Expiry = []int64{1, 2, 4294967295}[r.Intn(3)]
+			op.WillDelay = []int{1, 2}[r.Intn(2)]
+			c.Ops = append(c.Ops, op, sessOp{Op: "sub", ID: 0, T: 0})
+			if r.Chance(50) {
+				c.Ops = append(c.Ops, sessOp{Op: "drop", ID: 0})
+			} else {
+				c.Ops = append(c.Ops, sessOp{Op: "disc", ID: 0, Expiry: -1, WithWill: true})
+			}
+			c.Ops = append(c.Ops, sessOp{Op: "pub", T: 0})
+			op2 := genConnect(r, 0, true, v5mask)
+			op2.Clean = false
+			op2.At = 1 + r.Intn(2)
+			c.Ops = append(c.Ops, op2)
+			connected[0], ended[0], canSetExpiry[0] = true, true, op2.Expiry > 0
+		}
+		for k := 0; k < n; k++ {
+			id := r.Intn(2)
+			x := r.Intn(100)
+			switch {
+			case x < 22 && races < 2: // N connections race on one identifier
+				op := sessOp{Op: "race", ID: id, DropCur: connected[id] && r.Chance(40)}
+				for j := 0; j < 2+r.Intn(2); j++ {
+					ro := genConnect(r, id, true, v5mask)
+					op.Racers = append(op.Racers, ro)
+				}
+				c.Ops = append(c.Ops, op)
+				races++
+				connected[id] = true // unless all are refused and the current one dropped: ops on a free id are skipped
+				last := op.Racers[len(op.Racers)-1]
+				canSetExpiry[id] = false
+				_ = last
+			case x < 45 || !connected[id] && x < 60: // connect: free identifier, take-over or refusal
+				op := genConnect(r, id, true, v5mask)
+				if timed && ended[id] && !connected[id] && r.Chance(70) {
+					op.At = 1 + r.Intn(2)
+				}
+				c.Ops = append(c.Ops, op)
+				if !connected[id] || c.Preempt {
+					canSetExpiry[id] = op.V5 && op.Expiry > 0
+				}
+				connected[id] = true
+			case connected[id] && x < 60:
+				c.Ops = append(c.Ops, sessOp{Op: "sub", ID: id, T: r.Intn(2)})
+			case x < 66:
+				op := genConnect(r, id, false, v5mask)
+				op.Op = "abort"
+				c.Ops = append(c.Ops, op)
+				if c.Preempt {
+					connected[id] = false
+				}
+				ended[id] = true
+			case x < 72:
+				c.Ops = append(c.Ops, sessOp{Op: "pub", T: r.Intn(2)})
+			case connected[id] && x < 84:
+				op := sessOp{Op: "disc", ID: id, Expiry: -1, WithWill: r.Chance(40)}
+				if r.Chance(30) && canSetExpiry[id] {
+					op.Expiry = []int64{1, 2}[r.Intn(2)]
+				}
+				c.Ops = append(c.Ops, op)
+				connected[id] = false
+				ended[id] = true
+			case connected[id] && x < 94:
+				c.Ops = append(c.Ops, sessOp{Op: "drop", ID: id})
+				connected[id] = false
+				ended[id] = true
+			case timed:
+				c.Ops = append(c.Ops, sessOp{Op: "wait", Ms: []int{600, 1500}[r.Intn(2)]})
+			default:
+				c.Ops = append(c.Ops, sessOp{Op: "pub", T: r.Intn(2)})
+			}
+		}
+		c.Ops = append(c.Ops, sessOp{Op: "pub", T: 0}, sessOp{Op: "pub", T: 1})
 		return c
 	}}
 }
